@@ -149,29 +149,21 @@ export function optionToArgsForCalling(jsValue, size, align, writeToArrayBufferC
 }
 
 export function optionToBufferForCalling(wasm, jsValue, size, align, allocator, writeToArrayBufferCallback) {
-    let buf = DiplomatBuf.struct(wasm, size, align);
+    // An Option<T> crosses as { payload: T, is_ok: bool }: the flag sits right after the payload
+    // and the record is padded to the payload's alignment.
+    const total = size + align;
+    let buf = DiplomatBuf.struct(wasm, total, align);
 
-    
-    let buffer;
-    // Add 1 to the size since we're also accounting for the 0 or 1 is_ok field:
-    if (align == 8) {
-        buffer = new BigUint64Array(wasm.memory.buffer, buf, size / align + 1);
-    } else if (align == 4) {
-        buffer = new Uint32Array(wasm.memory.buffer, buf, size / align + 1);
-    } else if (align == 2) {
-        buffer = new Uint16Array(wasm.memory.buffer, buf, size / align + 1);
-    } else {
-        buffer = new Uint8Array(wasm.memory.buffer, buf, size / align + 1);
-    }
+    new Uint8Array(wasm.memory.buffer, buf.ptr, total).fill(0);
 
-    buffer.fill(0);
-    
     if (jsValue != null) {
-        writeToArrayBufferCallback(buffer.buffer, 0, jsValue);
-        buffer[buffer.length - 1] = 1;
+        writeToArrayBufferCallback(wasm.memory.buffer, buf.ptr, jsValue);
+        // (the callback may have allocated: look at the memory afresh)
+        new Uint8Array(wasm.memory.buffer, buf.ptr, total)[size] = 1;
     }
-    
+
     allocator.alloc(buf);
+    return buf.ptr;
 }
 
 
